@@ -69,7 +69,32 @@ class TreeGen:
         self.budget = self.rng.randint(1, self.max_nodes)
         self.seen_triples = set()
         node = self.node(0)
+        if len(self.used) > 1 and maybe(self.rng, 0.5):
+            node = self.forward_refs(node)
         return node
+
+    def forward_refs(self, node):
+        """turn some constant targets into references to ANY node variable, so that
+        references also precede the definition of their variable"""
+        rng = self.rng
+        allvars = list(self.used)
+
+        def walk(n):
+            var, bs = n
+            out = []
+            for r, t in bs:
+                if isinstance(t, tuple):
+                    out.append((r, walk(t)))
+                    continue
+                if r != '/' and maybe(rng, 0.2):
+                    v = rng.choice(allvars)
+                    key = (var, r.partition('~')[0], v)
+                    if not self.wf or key not in self.seen_triples:
+                        self.seen_triples.add(key)
+                        t = v + self.al(0.2)
+                out.append((r, t))
+            return (var, out)
+        return walk(node)
 
     def al(self, p=0.15):
         return aln(self.rng, p) if self.aligned else ''
@@ -181,6 +206,10 @@ def perturb(rng, s):
         else:
             s = s[:i] + rng.choice(BLANKS + EXOTIC) + s[i:]
     return s
+
+
+def gen_blank_line(rng):
+    return ''.join(rng.choice(BLANKS[:3] + EXOTIC + ['\x0b', '\x0c']) for _ in range(rng.randint(1, 4)))
 
 
 def gen_token_soup(rng, n=None):
